@@ -449,10 +449,17 @@ def r7(ctx, cfg):
     f = ctx.need_fn(R, key)
     if f is not None:
         ret = peel(P.ret(f))
+        # (`match last { None => Some(1), Some(k) => k.checked_add(1) }` is the same function as `last.unwrap_or(0).checked_add(1)`)
+        rets = [peel(x) for x in alts(ret)]
+        first = [x for x in rets if x[0] == "agg" and x[1].endswith("Option::Some") and len(x[2]) == 1 and peel(x[2][0][1]) == ("const", "int", 1)]
+        if first and len(rets) - len(first) == 1:
+            ret = [x for x in rets if x not in first][0]
         ok = ret[0] == "call" and ret[1].endswith("checked_add") and peel(ret[2][1]) == ("const", "int", 1)
         chain = []
         if ok:
             o = peel(ret[2][0])
+            if first:
+                chain.append("unwrap_or")
             # `x.unwrap_or(&0)` / `match x { Some(v) => v, None => 0 }`: alternatives {0, some(x)}
             al = [peel(x) for x in alts(o)]
             if len(al) == 2 and any(x == ("const", "int", 0) for x in al):
@@ -460,7 +467,13 @@ def r7(ctx, cfg):
                 if o[0] == "some":
                     o = peel(o[1])
                 chain.append("unwrap_or")
-            while o[0] == "call":
+            while o[0] == "call" or (o[0] == "bound" and o[1] == "elem"):
+                if o[0] == "bound":
+                    # `Some(k) = it.next_back()` outside a loop: which end of the iterator it is decides
+                    nx = [t for b, t in f.calls() if t["callee"]["key"] in ("std::iter::Iterator::next", "std::iter::DoubleEndedIterator::next_back")]
+                    chain.append(nx[0]["callee"]["key"].rsplit("::", 1)[1] if len(nx) == 1 else "?")
+                    o = peel(o[2])
+                    continue
                 name = o[1].rsplit("::", 1)[1]
                 chain.append(name)
                 nxt = peel(o[2][0])
